@@ -1236,6 +1236,8 @@ var reviewedExceptions = []exceptionEntry{
 		reason: "reached for audio representations only, which are registered only with a non-nil, non-zero constant sample duration", premise: verifyAudioSampleDurGuard},
 	{rule: "E3-D2", fn: "app.calcAudioSegRecipe", constructPrefix: "deref:load(app.RepData.ConstantSampleDuration)",
 		reason: "reached for audio representations only, which are registered only with a non-nil, non-zero constant sample duration", premise: verifyAudioSampleDurGuard},
+	{rule: "E3-D2", fn: "(*recv.ChannelMgr).AddChannel", constructPrefix: "deref:load(recv.ChannelMgr.cfg)",
+		reason: "the receiver is always constructed with a non-nil configuration (GetEmptyConfig or a successfully read file in Run); the nil test above is defensive"},
 	{rule: "E3-D2", fn: "app.chunkSegment", constructPrefix: "deref:param(init)",
 		reason: "reached only after the segment was decoded (seg != nil), which excludes image representations, the only ones loaded without an init segment"},
 	{rule: "E3-B1", fn: "app.shiftTimestamp", constructPrefix: "index:call((*regexp.Regexp).FindStringSubmatch)[",
